@@ -364,6 +364,10 @@ def run_job(args):
     """Worker entry: (module_name, sub_name, shard, tier, seed, known_sigs, n_override)."""
     modname, subname, shard, tier, seed, known_sigs, n_override = args
     warnings.filterwarnings("ignore", message="Generating overly large repr")
+    try:  # pool workers are daemonic; the code under test may itself start processes (Population.map)
+        mp.current_process()._config["daemon"] = False
+    except Exception:  # noqa
+        pass
     t0 = time.time()
     res = JobResult()
     res.known_sigs = set(known_sigs)
